@@ -15,10 +15,13 @@
   explored by the `loop` engine on the real coordinator + sidecars, and every such history is
   replayed on `Loop.step`.
 -/
+import Kvass.Pins.Coord
+import Kvass.Pins.Sidecar
 import Kvass.Model.Loop
 import Kvass.Spec.Loop
 import Kvass.Proofs.CoordQuiet
 import Kvass.Proofs.CoordNeed
+import Kvass.Proofs.CoordGcWhole
 
 namespace Kvass.Props.C03
 open Kvass Kvass.Coord Kvass.Spec
@@ -315,5 +318,65 @@ theorem gc_revert (o : Opt) (active : List Hash) (ss : List SI) (i : Nat) (s : S
             | true => obtain ⟨v, hv⟩ := (AL.has_iff _ _).mp hh; rw [hn] at hv; cases hv
           simp [this, Gen.gcHeld]
     simp [hact, hy, hheld, Gen.gcRevert, ht]
+
+/-! ### `gcTargets` as a whole (both loops), for reports with distinct keys per shard
+
+  `entry ss i h` is the entry shard `i` holds for `h`; `gc o active ss0` is the state after
+  `gcTargets` (the ghost field `afterGc` of a cycle's outcome). -/
+
+/-- a hand-over that both sides have scraped three times is completed by one pass of `gcTargets`:
+    the source's copy is gone, the destination's is untouched -/
+theorem C03_gc_handover_completes (o : Opt) (active : List Hash) (ss0 : List SI) (i j : Nat) (si sj : SI) (h : Hash) (vi vj : St)
+    (hnd0 : ∀ (k : Nat) (s : SI), ss0[k]? = some s → s.scraping.keys.Nodup)
+    (hact : h ∈ active) (hij : i ≠ j)
+    (hi : ss0[i]? = some si) (hci : si.changeable = true) (hgi : si.scraping.get h = some vi)
+    (hsti : vi.state = .inTransfer) (h3i : 3 ≤ vi.times)
+    (hj : ss0[j]? = some sj) (hcj : sj.changeable = true) (hgj : sj.scraping.get h = some vj)
+    (hstj : vj.state = .normal) (h3j : 3 ≤ vj.times)
+    (hothers : ∀ (k : Nat) (sk : SI), ss0[k]? = some sk → k ≠ i → k ≠ j → sk.changeable = true → sk.scraping.get h = none) :
+    entry (gc o active ss0) i h = none ∧ entry (gc o active ss0) j h = some vj :=
+  gc_handover_completes o active ss0 i j si sj h vi vj hnd0 hact hij hi hci hgi hsti h3i hj hcj hgj hstj h3j hothers
+
+/-- a target held twice in normal state (both scraped three times) is dropped on exactly one side,
+    whatever the loads: on `i` iff `j` is lighter in the configured dimension or equally loaded and
+    earlier — else on `j`; the copy that stays is untouched -/
+theorem C03_gc_duplicate_resolved (o : Opt) (active : List Hash) (ss0 : List SI) (i j : Nat) (si sj : SI) (h : Hash) (vi vj : St)
+    (hnd0 : ∀ (k : Nat) (s : SI), ss0[k]? = some s → s.scraping.keys.Nodup)
+    (hact : h ∈ active) (hij : i < j)
+    (hi : ss0[i]? = some si) (hci : si.changeable = true) (hgi : si.scraping.get h = some vi)
+    (hsti : vi.state = .normal) (h3i : 3 ≤ vi.times)
+    (hj : ss0[j]? = some sj) (hcj : sj.changeable = true) (hgj : sj.scraping.get h = some vj)
+    (hstj : vj.state = .normal) (h3j : 3 ≤ vj.times)
+    (hothers : ∀ (k : Nat) (sk : SI), ss0[k]? = some sk → k ≠ i → k ≠ j → sk.changeable = true → sk.scraping.get h = none) :
+    (Gen.gcLess o si.rt sj.rt i j = true → entry (gc o active ss0) i h = none ∧ entry (gc o active ss0) j h = some vj) ∧
+    (Gen.gcLess o si.rt sj.rt i j = false → entry (gc o active ss0) i h = some vi ∧ entry (gc o active ss0) j h = none) :=
+  gc_duplicate_resolved o active ss0 i j si sj h vi vj hnd0 hact hij hi hci hgi hsti h3i hj hcj hgj hstj h3j hothers
+
+/-- a copy in transfer (scraped three times) that no other in-sync shard knows is back in normal
+    state after one pass of `gcTargets` -/
+theorem C03_gc_lonely_reverts (o : Opt) (active : List Hash) (ss0 : List SI) (i : Nat) (si : SI) (h : Hash) (vi : St)
+    (hnd0 : ∀ (k : Nat) (s : SI), ss0[k]? = some s → s.scraping.keys.Nodup)
+    (hact : h ∈ active) (hi : ss0[i]? = some si) (hci : si.changeable = true) (hgi : si.scraping.get h = some vi)
+    (hst : vi.state = .inTransfer) (h3 : 3 ≤ vi.times)
+    (halone : ∀ (k : Nat) (sk : SI), ss0[k]? = some sk → k ≠ i → sk.changeable = true → sk.scraping.get h = none) :
+    entry (gc o active ss0) i h = some (revertSt vi) ∧ (revertSt vi).state = .normal :=
+  ⟨gc_lonely_reverts o active ss0 i si h vi hnd0 hact hi hci hgi hst h3 halone, rfl⟩
+
+/-- the state `gcTargets` leaves is the one the later stages of a (full) cycle start from; it is
+    recorded in the ghost field `afterGc` -/
+theorem afterGc_eq (swr : Swr) (sc : Sched) (inp : Input) (hne : stopsEarly inp = false) :
+    (cycle swr sc inp).afterGc = gc inp.opt inp.active (infos0 inp) := by
+  rw [cycle_eq_finish swr sc inp hne]
+  generalize gc inp.opt inp.active (infos0 inp) = ss1
+  generalize (assign inp.opt inp.active (globalOf (infos0 inp) inp.explore) sc (alleviate swr inp.opt sc (startCS inp)).1) = r3
+  generalize spaceAdd (alleviate swr inp.opt sc (startCS inp)).2 r3.2.2 = need
+  unfold finish
+  simp only
+  split
+  · rfl
+  · generalize (if Gen.needUp (Gen.spaceIsZero need) = true then (tryScaleUp inp.opt r3.1.shards need, r3.1)
+        else if Gen.scaleDownOn inp.opt = true then tryScaleDown inp.opt sc r3.1 r3.2.1
+        else (Gen.scaleInit (r3.1.shards.length : Int) (nChangeable r3.1.shards), r3.1)) = r
+    split <;> rfl
 
 end Kvass.Props.C03
